@@ -25,6 +25,12 @@ Proof. intro E. apply Qleb_comp; [exact E|reflexivity]. Qed.
 
 Definition nth0 (l : list Z) (i : nat) : Z := nth i l 0.
 
+(* floor(log2 (a/b)) for positive a b (used only to *guess* rounding candidates, see RoundNE.fl_g) *)
+Definition qlog2 (a b : Z) : Z :=
+  let s0 := Z.log2 a - Z.log2 b in
+  let ge := if Z.leb 0 s0 then Z.leb (Z.shiftl b s0) a else Z.leb b (Z.shiftl a (- s0)) in
+  if ge then s0 else s0 - 1.
+
 (* ---- IEEE-754 binary interchange formats: eb exponent bits, fb fraction bits ---- *)
 Section IEEE.
 Variables eb fb : Z.
@@ -41,9 +47,23 @@ Definition itop : Z := iemax * 2^fb - 1.             (* magnitude pattern of the
 (* round to nearest even; overflow (>= maxfinite + ulp/2) to infinity: with the
    rounding done over [0 .. itop+1] where itop+1 is the pattern of +inf, whose
    "value" 2^emax is exactly what IEEE prescribes for the overflow threshold *)
+(* floor guess: exponent from the bit lengths, fraction by shifting (checked by RoundNE.fl_g) *)
+Definition ieee_guess (q : Q) : Z :=
+  let a := Qnum q in let b := Zpos (Qden q) in
+  if Z.leb a 0 then 0 else
+  let s := qlog2 a b in
+  let bias := 2^(eb-1) - 1 in
+  let ebv := s + bias in
+  if Z.leb 1 ebv then
+    let num := if Z.leb 0 s then Z.shiftl a fb else Z.shiftl a (fb - s) in
+    let den := if Z.leb 0 s then Z.shiftl b s else b in
+    ebv * 2^fb + (num / den - 2^fb)
+  else
+    let sh := bias - 1 + fb in
+    (if Z.leb 0 sh then Z.shiftl a sh else Z.shiftr a (- sh)) / b.
 Definition ieee_round_mag (q : Q) : Z :=
   if Qle_bool (cf_val inb eb (itop + 1)) q then itop + 1
-  else rnem (cf_val inb eb) (itop + 1) Z.even q.
+  else rne_g (cf_val inb eb) (itop + 1) Z.even (mid (cf_val inb eb)) (ieee_guess q) q.
 Definition ieee_encode (x : num) : Z :=
   match x with
   | NaN => iemax * 2^fb + 2^(fb-1)
